@@ -325,8 +325,69 @@ fn explore_workload(w: &Workload, bound: Option<usize>, cap: u64, st: &mut Stats
         "schedules": count, "capped": capped, "max_scheduling_points": max_points, "distinct_interleavings_of_calls": interleavings.len(), "distinct_outcomes": outcomes.len(), "degraded": degraded})
 }
 
+/// Free-running pass, used only when the loom pass reports itself not applicable although the tree contains
+/// synchronisation primitives (the driver sets EVX_C15_FREE_RUNNING=1): 8 real threads evaluate pairs of
+/// shared trees over every operator class and many builtins, 20000 rounds each, against the sequential
+/// results. This is *sampling*, not exploration — it can only ever add a genuine counterexample (results
+/// that differ from the sequential run), never contribute to a "holds" verdict, and is labelled so.
+fn free_running_pass(stats: &mut Stats) {
+    use std::sync::Arc;
+    let pairs: [(&str, &str, &str); 3] = [
+        ("operators-and-builtins", "(str::to_uppercase(str::from(x) + \"ab\"), x ^ 2, math::pow(x, 2), (1; 2; 3; x), if(x > 150, 1, 2), str::from((x, x + 1, \"t\")), contains((x, 2), x), min(x, 3), max(2.5, x), x % 7, -x, x < 150, str::trim(\" x \"), len(s), bitand(x, 6), shl(x, 2), math::sqrt(x), floor(x / 3.0), typeof(x), (x, (x, 1)) == (x, (x, 1)), s + \"z\", !(x == 1), x / 7 * 3 - 1)", "(str::to_uppercase(\"xyz\" + str::from(x)), x ^ 3, math::pow(2, x % 5), (x; 7), if(x > 150, \"a\", \"b\"), str::from((x, (x, 2.5))), contains((1, 2, 3), x), min(x, 300, 5), max(x, 1), x % 9, -(x + 1), x >= 200, str::trim(\"\ty\"), len((x, 1, 2)), bitor(x, 1), shr(x, 1), math::ln(x), ceil(x / 7.0), typeof(s), (x, 2) != (x, 3), \"q\" + s, !(x != 1), x * 3 / 7 + 1)"),
+        ("bulk-math", "(math::sin(2.0), math::cos(2.75), math::ln(4.0), math::exp(4.25), math::sqrt(5.5), math::tan(5.75), math::atan(6.5), math::cbrt(7.25), math::sinh(8.0), math::log2(9.25), math::log10(10.0), math::exp2(10.25), math::sin(11.0), math::cos(11.75), math::ln(13.0), math::exp(13.25), math::sqrt(14.5), math::tan(14.75), math::atan(15.5), math::cbrt(16.25), math::sinh(17.0), math::log2(18.25), math::log10(19.0), math::exp2(19.25))", "(math::sin(5.0), math::cos(5.75), math::ln(7.0), math::exp(7.25), math::sqrt(8.5), math::tan(8.75), math::atan(9.5), math::cbrt(10.25), math::sinh(11.0), math::log2(12.25), math::log10(13.0), math::exp2(13.25), math::sin(14.0), math::cos(14.75), math::ln(16.0), math::exp(16.25), math::sqrt(17.5), math::tan(17.75), math::atan(18.5), math::cbrt(19.25), math::sinh(20.0), math::log2(21.25), math::log10(22.0), math::exp2(22.25))"),
+        ("bulk-case-conversion", "(str::to_lowercase(\"Alpha-Subject-Number-00-With-Enough-Characters-To-Be-Long\"), str::to_uppercase(\"Alpha-Subject-Number-01-With-Enough-Characters-To-Be-Long\"), str::to_lowercase(\"Alpha-Subject-Number-02-With-Enough-Characters-To-Be-Long\"), str::to_uppercase(\"Alpha-Subject-Number-03-With-Enough-Characters-To-Be-Long\"), str::to_lowercase(\"Alpha-Subject-Number-04-With-Enough-Characters-To-Be-Long\"), str::to_uppercase(\"Alpha-Subject-Number-05-With-Enough-Characters-To-Be-Long\"), str::to_lowercase(\"Alpha-Subject-Number-06-With-Enough-Characters-To-Be-Long\"), str::to_uppercase(\"Alpha-Subject-Number-07-With-Enough-Characters-To-Be-Long\"), str::to_lowercase(\"Alpha-Subject-Number-08-With-Enough-Characters-To-Be-Long\"), str::to_uppercase(\"Alpha-Subject-Number-09-With-Enough-Characters-To-Be-Long\"), str::to_lowercase(\"Alpha-Subject-Number-10-With-Enough-Characters-To-Be-Long\"), str::to_uppercase(\"Alpha-Subject-Number-11-With-Enough-Characters-To-Be-Long\"), str::to_lowercase(\"Alpha-Subject-Number-12-With-Enough-Characters-To-Be-Long\"), str::to_uppercase(\"Alpha-Subject-Number-13-With-Enough-Characters-To-Be-Long\"), str::to_lowercase(\"Alpha-Subject-Number-14-With-Enough-Characters-To-Be-Long\"), str::to_uppercase(\"Alpha-Subject-Number-15-With-Enough-Characters-To-Be-Long\"), str::to_lowercase(\"Alpha-Subject-Number-16-With-Enough-Characters-To-Be-Long\"), str::to_uppercase(\"Alpha-Subject-Number-17-With-Enough-Characters-To-Be-Long\"), str::to_lowercase(\"Alpha-Subject-Number-18-With-Enough-Characters-To-Be-Long\"), str::to_uppercase(\"Alpha-Subject-Number-19-With-Enough-Characters-To-Be-Long\"))", "(str::to_lowercase(\"Beta-Subject-Number-00-With-Enough-Characters-To-Be-Long\"), str::to_uppercase(\"Beta-Subject-Number-01-With-Enough-Characters-To-Be-Long\"), str::to_lowercase(\"Beta-Subject-Number-02-With-Enough-Characters-To-Be-Long\"), str::to_uppercase(\"Beta-Subject-Number-03-With-Enough-Characters-To-Be-Long\"), str::to_lowercase(\"Beta-Subject-Number-04-With-Enough-Characters-To-Be-Long\"), str::to_uppercase(\"Beta-Subject-Number-05-With-Enough-Characters-To-Be-Long\"), str::to_lowercase(\"Beta-Subject-Number-06-With-Enough-Characters-To-Be-Long\"), str::to_uppercase(\"Beta-Subject-Number-07-With-Enough-Characters-To-Be-Long\"), str::to_lowercase(\"Beta-Subject-Number-08-With-Enough-Characters-To-Be-Long\"), str::to_uppercase(\"Beta-Subject-Number-09-With-Enough-Characters-To-Be-Long\"), str::to_lowercase(\"Beta-Subject-Number-10-With-Enough-Characters-To-Be-Long\"), str::to_uppercase(\"Beta-Subject-Number-11-With-Enough-Characters-To-Be-Long\"), str::to_lowercase(\"Beta-Subject-Number-12-With-Enough-Characters-To-Be-Long\"), str::to_uppercase(\"Beta-Subject-Number-13-With-Enough-Characters-To-Be-Long\"), str::to_lowercase(\"Beta-Subject-Number-14-With-Enough-Characters-To-Be-Long\"), str::to_uppercase(\"Beta-Subject-Number-15-With-Enough-Characters-To-Be-Long\"), str::to_lowercase(\"Beta-Subject-Number-16-With-Enough-Characters-To-Be-Long\"), str::to_uppercase(\"Beta-Subject-Number-17-With-Enough-Characters-To-Be-Long\"), str::to_lowercase(\"Beta-Subject-Number-18-With-Enough-Characters-To-Be-Long\"), str::to_uppercase(\"Beta-Subject-Number-19-With-Enough-Characters-To-Be-Long\"))"),
+    ];
+    for (name, a, b) in pairs {
+        let trees: Vec<ENode> = match (build_operator_tree::<DefaultNumericTypes>(a), build_operator_tree::<DefaultNumericTypes>(b)) {
+            (Ok(x), Ok(y)) => vec![x, y],
+            _ => continue,
+        };
+        let mut ctx = HCtx::new();
+        ctx.set_value("x".into(), Value::Int(100)).unwrap();
+        ctx.set_value("s".into(), Value::String("abcdefghijklmnop".into())).unwrap();
+        let want: Vec<String> = trees.iter().map(|t| format!("{:?}", t.eval_with_context(&ctx))).collect();
+        let shared = Arc::new((trees, ctx, want));
+        let barrier = Arc::new(std::sync::Barrier::new(8));
+        let handles: Vec<_> = (0..8usize)
+            .map(|tid| {
+                let shared = shared.clone();
+                let barrier = barrier.clone();
+                std::thread::spawn(move || -> Option<String> {
+                    barrier.wait();
+                    for round in 0..20000usize {
+                        let k = (tid + round) % 2;
+                        let got = format!("{:?}", shared.0[k].eval_with_context(&shared.1));
+                        if got != shared.2[k] {
+                            return Some(format!("thread {} round {}: {} where the sequential run gives {}", tid, round, got, shared.2[k]));
+                        }
+                    }
+                    None
+                })
+            })
+            .collect();
+        stats.count("free-running/workloads");
+        stats.evaluations += 8 * 20000;
+        for h in handles {
+            if let Ok(Some(diff)) = h.join() {
+                stats.violation(Violation {
+                    property: ID,
+                    kind: "free-running-result-differs-from-sequential".into(),
+                    input: json!({"engine": "free-running threads (sampling)", "workload": name, "sources": [a, b]}),
+                    expected: "every thread observes the sequential results".into(),
+                    actual: diff,
+                    test: String::new(),
+                });
+                break;
+            }
+        }
+    }
+}
+
 pub fn run(cfg: &Cfg) -> Report {
     let mut stats = Stats::new();
+    if std::env::var("EVX_C15_FREE_RUNNING").ok().as_deref() == Some("1") {
+        free_running_pass(&mut stats);
+    }
     // the trusted base of (b): no unsafe code in the crate
     let lib = std::fs::read_to_string("/repo/src/lib.rs").unwrap_or_default();
     let forbid_unsafe = lib.contains("#![forbid(unsafe_code)]");
@@ -386,7 +447,7 @@ pub fn run(cfg: &Cfg) -> Report {
         bound_completed: match cfg.tier { Tier::Quick => "preemption bound 2".into(), Tier::Thorough => "unbounded for 2 threads, preemption bound 3 for 3 threads".to_string() },
         assumptions: vec![
             "baton scheduler: races whose window contains no harness-owned scheduling point are not explored by it; the loom pass adds every library-internal atomic / lock / thread-local operation as a scheduling point (for the primitives loom models; Once, OnceLock, LazyLock and Arc reference counts are left on std and stay invisible); weak-memory effects only as far as loom models them; data races proper are excluded by #![forbid(unsafe_code)] (asserted)".into(),
-            "loom pass: if the rewritten copy does not build (an API loom lacks) the pass reports itself not applicable to the tree and the baton exploration alone decides; a run that hits its time cap or that loom aborts for a reason other than the harness's own comparison is counted as capped / inconclusive, never as a verdict".into(),
+            "loom pass: if the rewritten copy does not build (an API loom lacks) the pass reports itself not applicable to the tree and the baton exploration alone decides; a run that hits its time cap or that loom aborts for a reason other than the harness's own comparison is counted as capped / inconclusive, never as a verdict; only then, and only if the tree contains synchronisation primitives, a free-running pass of 8 real threads is added, which is sampling and can only contribute a genuine counterexample".into(),
             "schedule 0 of every workload is run twice and must give identical observations; a divergence while replaying a prefix is a machinery error".into(),
             "a thread that blocks on a foreign lock held across a scheduling point is marked blocked by a watchdog and the baton passes on (counted as degraded determinism; the oracle stays sound)".into(),
             "the Send + Sync half is decided by the type checker, as the property says".into(),
@@ -402,6 +463,16 @@ pub fn replay(case: &J) -> i32 {
     let mut st = Stats::new();
     if input["probe"].is_string() {
         println!("{}", sendsync_probe(&mut st));
+        return super::replay_verdict(ID, &st);
+    }
+    if input["engine"].as_str().map(|e| e.starts_with("free-running")).unwrap_or(false) {
+        // sampling: repeat the pass a few times; a run without a counterexample proves nothing either way
+        for _ in 0..5 {
+            free_running_pass(&mut st);
+            if !st.violations.is_empty() {
+                break;
+            }
+        }
         return super::replay_verdict(ID, &st);
     }
     let name = input["workload"].as_str().unwrap_or("");
